@@ -1,121 +1,130 @@
 import Slock.Proofs.ElectRun
 /-!
-The proposer-side bookkeeping seen from the candidate itself: the only steps (other than a restart) that can lower a
-member's `proposalId` / `commitId` are the two assignments at the successful end of `DoProposal` / `DoCommit`.
+Every member, candidates included. One step that is not a restart of member `i` changes `i` by an acceptor move
+(`AccRel`: one of the handlers, or nothing) followed by a proposer-side move (`CandW`: the bookkeeping of `DoRequests`
+and the endings of `DoVote` / `DoProposal` / `DoCommit`). After the repairs of D2 and D3 the proposer-side moves are:
+nothing; the guarded raise of `proposalId` (only when unlatched, only upwards — the promise the proposal handler itself
+would make); the release of a latch the member set ITSELF after its own failed commit round; the win.
+
+From that: `proposalId` and `commitId` of EVERY member never decrease while it is not restarted, a latched member never
+acknowledges a commit, and the number of commits a member acknowledged is bounded by 1 + the number of times it
+released its own latch.
 -/
 namespace Slock.Elect
 
-/-- what the proposer-side bookkeeping (`DoRequests` completion, `DoVote`/`DoProposal`/`DoCommit` endings) may do to the
-acceptor numbers of the candidate itself: nothing, or `proposalId = proposalIndex` at the successful end of DoProposal,
-or `commitId = proposalId` at the successful end of DoCommit -/
-def CandRel (m m' : Member) : Prop :=
-  (m'.pid = m.pid ∨ (m.phase = .prop ∧ m'.phase = .commit ∧ m'.pid = m'.pidx)) ∧
-  (m'.cid = m.cid ∨ (m.phase = .commit ∧ m'.phase = .won ∧ m'.cid = m.pid))
+/-- the proposer-side part of a step, seen from the candidate `c` itself -/
+def CandW (c : Nat) (m m' : Member) : Prop :=
+  m'.commits = m.commits ∧
+  ( -- bookkeeping only
+    (m'.pid = m.pid ∧ m'.cid = m.cid ∧ m'.latch = m.latch ∧ m'.clears = m.clears ∧ m'.phase = m.phase ∧ m'.voteHost = m.voteHost)
+    -- a round starts / ends without touching the acceptor fields: idle, vote, or into the proposal round with a voted host
+  ∨ (m'.pid = m.pid ∧ m'.cid = m.cid ∧ m'.latch = m.latch ∧ m'.clears = m.clears ∧
+      (m'.phase = .idle ∨ m'.phase = .vote ∨ (m'.phase = .prop ∧ m'.voteHost.isSome)))
+    -- successful end of DoProposal: proposalId unchanged, or raised while not latched
+  ∨ (m.phase = .prop ∧ m'.phase = .commit ∧ m'.voteHost = m.voteHost ∧ m'.cid = m.cid ∧ m'.latch = m.latch ∧ m'.clears = m.clears ∧
+      (m'.pid = m.pid ∨ (m.latch = none ∧ m.pid < m'.pid)))
+    -- failed end of DoCommit that releases the member's OWN latch
+  ∨ (m.phase = .commit ∧ m'.phase = .idle ∧ m.fromHost = some c ∧ m'.latch = none ∧
+      m'.clears = (if m.latch.isSome then m.clears + 1 else m.clears) ∧ m'.pid = m.pid ∧ m'.cid = m.cid)
+    -- successful end of DoCommit
+  ∨ (m.phase = .commit ∧ m'.phase = .won ∧ m'.latch = m.voteHost ∧ m'.cid = m.pid ∧ m'.pid = m.pid ∧ m'.clears = m.clears))
 
-theorem candRel_checkComplete (n c : Nat) (m : Member) : CandRel m (checkComplete n c m).1 := by
+theorem CandW.refl (c : Nat) (m : Member) : CandW c m m := ⟨rfl, Or.inl ⟨rfl, rfl, rfl, rfl, rfl, rfl⟩⟩
+
+theorem candW_checkComplete (n c : Nat) (m : Member) : CandW c m (checkComplete n c m).1 := by
   unfold checkComplete
   split
-  · exact ⟨Or.inl rfl, Or.inl rfl⟩
+  · exact CandW.refl c m
   · cases hp : m.phase with
-    | idle => exact ⟨Or.inl rfl, Or.inl rfl⟩
-    | won => exact ⟨Or.inl rfl, Or.inl rfl⟩
+    | idle => exact CandW.refl c m
+    | won => exact CandW.refl c m
     | vote =>
       simp only []
       unfold finishVote
       split
-      · exact ⟨Or.inl rfl, Or.inl rfl⟩
+      · exact ⟨rfl, Or.inr (Or.inl ⟨rfl, rfl, rfl, rfl, Or.inl rfl⟩)⟩
       · split
-        · exact ⟨Or.inl rfl, Or.inl rfl⟩
-        · exact ⟨Or.inl rfl, Or.inl rfl⟩
+        · exact ⟨rfl, Or.inr (Or.inl ⟨rfl, rfl, rfl, rfl, Or.inl rfl⟩)⟩
+        · exact ⟨rfl, Or.inr (Or.inl ⟨rfl, rfl, rfl, rfl, Or.inr (Or.inr ⟨rfl, rfl⟩)⟩)⟩
     | prop =>
       simp only []
       unfold finishProposal
       split
-      · exact ⟨Or.inl rfl, Or.inl rfl⟩
+      · exact ⟨rfl, Or.inr (Or.inl ⟨rfl, rfl, rfl, rfl, Or.inl rfl⟩)⟩
       · split
-        · exact ⟨Or.inl rfl, Or.inl rfl⟩
-        · exact ⟨Or.inr ⟨hp, rfl, rfl⟩, Or.inl rfl⟩
+        · exact ⟨rfl, Or.inr (Or.inl ⟨rfl, rfl, rfl, rfl, Or.inl rfl⟩)⟩
+        · refine ⟨rfl, Or.inr (Or.inr (Or.inl ⟨hp, rfl, rfl, rfl, rfl, rfl, ?_⟩))⟩
+          simp only [beginCommit]
+          by_cases hg : (decide (m.pid < m.round) && m.latch.isNone) = true
+          · right
+            rw [if_pos hg]
+            simp only [Bool.and_eq_true, decide_eq_true_eq] at hg
+            refine ⟨?_, hg.1⟩
+            cases hl : m.latch with
+            | none => rfl
+            | some x => rw [hl] at hg; simp at hg
+          · left
+            rw [if_neg hg]
     | commit =>
       simp only []
       unfold finishCommit
       split
-      · exact ⟨Or.inl rfl, Or.inl rfl⟩
-      · exact ⟨Or.inl rfl, Or.inr ⟨hp, rfl, rfl⟩⟩
+      · split
+        · rename_i hf
+          exact ⟨rfl, Or.inr (Or.inr (Or.inr (Or.inl ⟨hp, rfl, hf, rfl, rfl, rfl, rfl⟩)))⟩
+        · exact ⟨rfl, Or.inr (Or.inl ⟨rfl, rfl, rfl, rfl, Or.inl rfl⟩)⟩
+      · exact ⟨rfl, Or.inr (Or.inr (Or.inr (Or.inr ⟨hp, rfl, rfl, rfl, rfl, rfl⟩)))⟩
 
-
-theorem candRel_of_eq {m m1 m' : Member} (h : CandRel m1 m') (hp : m1.pid = m.pid) (hc : m1.cid = m.cid)
-    (hph : m1.phase = m.phase) : CandRel m m' := by
-  unfold CandRel at *
-  rw [hp, hc, hph] at h
+/-- `CandW` only looks at these fields of its first argument -/
+theorem candW_of_eq {c : Nat} {m m1 m' : Member} (h : CandW c m1 m')
+    (h1 : m1.pid = m.pid) (h2 : m1.cid = m.cid) (h3 : m1.latch = m.latch) (h4 : m1.clears = m.clears)
+    (h5 : m1.phase = m.phase) (h6 : m1.voteHost = m.voteHost) (h7 : m1.fromHost = m.fromHost) (h8 : m1.commits = m.commits) :
+    CandW c m m' := by
+  unfold CandW at *
+  rw [h1, h2, h3, h4, h5, h6, h7, h8] at h
   exact h
 
-theorem candRel_recordError (n c : Nat) (m : Member) : CandRel m (recordError n c m).1 := by
+theorem candW_recordError (n c : Nat) (m : Member) : CandW c m (recordError n c m).1 := by
   unfold recordError
-  exact candRel_of_eq (candRel_checkComplete n c _) rfl rfl rfl
+  exact candW_of_eq (candW_checkComplete n c _) rfl rfl rfl rfl rfl rfl rfl rfl
 
-theorem candRel_recordVote (n c t : Nat) (m : Member) (r : VoteResp) (b : Bool) : CandRel m (recordVote n c t m r b).1 := by
+theorem candW_recordVote (n c t : Nat) (m : Member) (r : VoteResp) (b : Bool) : CandW c m (recordVote n c t m r b).1 := by
   unfold recordVote
   split
-  · exact ⟨Or.inl rfl, Or.inl rfl⟩
+  · exact CandW.refl c m
   · cases b
-    · exact candRel_of_eq (candRel_checkComplete n c _) rfl rfl rfl
-    · exact candRel_of_eq (candRel_checkComplete n c _) rfl rfl rfl
+    · exact candW_of_eq (candW_checkComplete n c _) rfl rfl rfl rfl rfl rfl rfl rfl
+    · exact candW_of_eq (candW_checkComplete n c _) rfl rfl rfl rfl rfl rfl rfl rfl
 
-theorem candRel_recordProposal (n c : Nat) (m : Member) (r : PropRes) (b : Bool) : CandRel m (recordProposal n c m r b).1 := by
+theorem candW_recordProposal (n c : Nat) (m : Member) (r : PropRes) (b : Bool) : CandW c m (recordProposal n c m r b).1 := by
   unfold recordProposal
   split
-  · exact ⟨Or.inl rfl, Or.inl rfl⟩
+  · exact CandW.refl c m
   · cases r with
-    | ok o => exact candRel_of_eq (candRel_checkComplete n c _) rfl rfl rfl
-    | reject => exact candRel_of_eq (candRel_checkComplete n c _) rfl rfl rfl
-    | aofid => exact candRel_of_eq (candRel_checkComplete n c _) rfl rfl rfl
-    | badHost => exact candRel_of_eq (candRel_checkComplete n c _) rfl rfl rfl
     | propId x =>
       simp only []
       split
-      · exact candRel_of_eq (candRel_checkComplete n c _) rfl rfl rfl
-      · exact candRel_of_eq (candRel_checkComplete n c _) rfl rfl rfl
+      · exact candW_of_eq (candW_checkComplete n c _) rfl rfl rfl rfl rfl rfl rfl rfl
+      · exact candW_of_eq (candW_checkComplete n c _) rfl rfl rfl rfl rfl rfl rfl rfl
+    | ok o => exact candW_of_eq (candW_checkComplete n c _) rfl rfl rfl rfl rfl rfl rfl rfl
+    | reject => exact candW_of_eq (candW_checkComplete n c _) rfl rfl rfl rfl rfl rfl rfl rfl
+    | role => exact candW_of_eq (candW_checkComplete n c _) rfl rfl rfl rfl rfl rfl rfl rfl
+    | status => exact candW_of_eq (candW_checkComplete n c _) rfl rfl rfl rfl rfl rfl rfl rfl
+    | aofid => exact candW_of_eq (candW_checkComplete n c _) rfl rfl rfl rfl rfl rfl rfl rfl
+    | badHost => exact candW_of_eq (candW_checkComplete n c _) rfl rfl rfl rfl rfl rfl rfl rfl
+    | offline => exact candW_of_eq (candW_checkComplete n c _) rfl rfl rfl rfl rfl rfl rfl rfl
 
-theorem candRel_recordCommit (n c : Nat) (m : Member) (r : CommitRes) : CandRel m (recordCommit n c m r).1 := by
+theorem candW_recordCommit (n c : Nat) (m : Member) (r : CommitRes) : CandW c m (recordCommit n c m r).1 := by
   unfold recordCommit
   split
-  · exact ⟨Or.inl rfl, Or.inl rfl⟩
-  · cases r <;> exact candRel_of_eq (candRel_checkComplete n c _) rfl rfl rfl
+  · exact CandW.refl c m
+  · cases r <;> exact candW_of_eq (candW_checkComplete n c _) rfl rfl rfl rfl rfl rfl rfl rfl
 
-/-- one step seen from any member that is not being restarted by it: its numbers do not decrease, EXCEPT through the two
-proposer-side assignments -/
-def StepRel (m m' : Member) : Prop :=
-  (m.pid ≤ m'.pid ∨ (m.phase = .prop ∧ m'.phase = .commit ∧ m'.pid = m'.pidx)) ∧
-  (m.cid ≤ m'.cid ∨ (m.phase = .commit ∧ m'.phase = .won))
-
-theorem StepRel.refl (m : Member) : StepRel m m := ⟨Or.inl (Nat.le_refl _), Or.inl (Nat.le_refl _)⟩
-
-theorem StepRel.of_acc {m m' : Member} (h : AccRel m m') : StepRel m m' :=
-  ⟨Or.inl h.mono.2.1, Or.inl h.mono.2.2⟩
-
-theorem StepRel.of_cand {m m' : Member} (h : CandRel m m') : StepRel m m' := by
-  obtain ⟨h1, h2⟩ := h
-  constructor
-  · rcases h1 with h1 | h1
-    · left; omega
-    · right; exact h1
-  · rcases h2 with h2 | ⟨a, b, _⟩
-    · left; omega
-    · right; exact ⟨a, b⟩
-
-theorem StepRel.of_acc_cand {m a m' : Member} (h1 : AccRel m a) (h2 : CandRel a m') : StepRel m m' := by
-  obtain ⟨hp, hpid, hcid⟩ := h1.mono
-  obtain ⟨c1, c2⟩ := h2
-  constructor
-  · rcases c1 with c1 | ⟨x, y, z⟩
-    · left; omega
-    · right; exact ⟨by rw [← hp]; exact x, y, z⟩
-  · rcases c2 with c2 | ⟨x, y, _⟩
-    · left; omega
-    · right; exact ⟨by rw [← hp]; exact x, y⟩
-
-theorem step_rel (s : State) (e : Event) (i : Nat) (hr : e ≠ .restart i) :
-    StepRel (getM s.members i) (getM (step s e).1.members i) := by
+/-- decomposition of a step, for any member that the step does not restart -/
+theorem step_decomp (s : State) (e : Event) (i : Nat) (hr : e ≠ .restart i) :
+    ∃ a, AccRel (getM s.members i) a ∧ CandW i a (getM (step s e).1.members i) := by
+  have triv : ∃ a, AccRel (getM s.members i) a ∧ CandW i a (getM s.members i) :=
+    ⟨_, AccRel.refl _, CandW.refl _ _⟩
   unfold step
   cases e with
   | start c =>
@@ -127,16 +136,16 @@ theorem step_rel (s : State) (e : Event) (i : Nat) (hr : e ≠ .restart i) :
         · subst hic
           simp only [State.n] at hc
           rw [getM_setM_eq _ _ _ hc]
-          exact ⟨Or.inl (Nat.le_refl _), Or.inl (Nat.le_refl _)⟩
-        · simp only [getM_setM_ne _ _ _ _ hic]; exact StepRel.refl _
-      · exact StepRel.refl _
-    · exact StepRel.refl _
+          exact ⟨_, AccRel.refl _, rfl, Or.inr (Or.inl ⟨rfl, rfl, rfl, rfl, Or.inr (Or.inl rfl)⟩)⟩
+        · simp only [getM_setM_ne _ _ _ _ hic]; exact triv
+      · exact triv
+    · exact triv
   | restart c =>
     have hci : i ≠ c := fun h => hr (by rw [h])
     simp only []
     split
-    · simp only [getM_setM_ne _ _ _ _ hci]; exact StepRel.refl _
-    · exact StepRel.refl _
+    · simp only [getM_setM_ne _ _ _ _ hci]; exact triv
+    · exact triv
   | save c =>
     simp only []
     split
@@ -145,16 +154,16 @@ theorem step_rel (s : State) (e : Event) (i : Nat) (hr : e ≠ .restart i) :
       · subst hci
         simp only [State.n] at hc
         rw [getM_setM_eq _ _ _ hc]
-        exact ⟨Or.inl (Nat.le_refl _), Or.inl (Nat.le_refl _)⟩
-      · simp only [getM_setM_ne _ _ _ _ hci]; exact StepRel.refl _
-    · exact StepRel.refl _
+        exact ⟨_, AccRel.refl _, rfl, Or.inl ⟨rfl, rfl, rfl, rfl, rfl, rfl⟩⟩
+      · simp only [getM_setM_ne _ _ _ _ hci]; exact triv
+    · exact triv
   | deliverReq c t =>
     simp only []
     split
     · rename_i hct
       simp only [State.n] at hct
       split
-      · exact StepRel.refl _
+      · exact triv
       · rename_i msg rest _
         cases msg with
         | voteReq a b =>
@@ -164,14 +173,14 @@ theorem step_rel (s : State) (e : Event) (i : Nat) (hr : e ≠ .restart i) :
             by_cases hic : i = c
             · subst hic
               simp only [getM_setM_eq _ _ _ hct.1]
-              exact StepRel.of_acc_cand (accRel_handleVote i (getM s.members i)) (candRel_recordVote _ _ _ _ _ _)
-            · simp only [getM_setM_ne _ _ _ _ hic]; exact StepRel.refl _
+              exact ⟨_, accRel_handleVote i (getM s.members i), candW_recordVote _ _ _ _ _ _⟩
+            · simp only [getM_setM_ne _ _ _ _ hic]; exact triv
           · simp only [htc, if_false]
             by_cases hit : i = t
             · subst hit
               simp only [getM_setM_eq _ _ _ hct.2]
-              exact StepRel.of_acc (accRel_handleVote i (getM s.members i))
-            · simp only [getM_setM_ne _ _ _ _ hit]; exact StepRel.refl _
+              exact ⟨_, accRel_handleVote i (getM s.members i), CandW.refl _ _⟩
+            · simp only [getM_setM_ne _ _ _ _ hit]; exact triv
         | propReq a b k host aof =>
           simp only []
           by_cases htc : t = c
@@ -179,14 +188,14 @@ theorem step_rel (s : State) (e : Event) (i : Nat) (hr : e ≠ .restart i) :
             by_cases hic : i = c
             · subst hic
               simp only [getM_setM_eq _ _ _ hct.1]
-              exact StepRel.of_acc_cand (accRel_handleProposal s.n (getM s.members i) k host aof) (candRel_recordProposal _ _ _ _ _)
-            · simp only [getM_setM_ne _ _ _ _ hic]; exact StepRel.refl _
+              exact ⟨_, accRel_handleProposal s.n i (getM s.members i) k host aof, candW_recordProposal _ _ _ _ _⟩
+            · simp only [getM_setM_ne _ _ _ _ hic]; exact triv
           · simp only [htc, if_false]
             by_cases hit : i = t
             · subst hit
               simp only [getM_setM_eq _ _ _ hct.2]
-              exact StepRel.of_acc (accRel_handleProposal s.n (getM s.members i) k host aof)
-            · simp only [getM_setM_ne _ _ _ _ hit]; exact StepRel.refl _
+              exact ⟨_, accRel_handleProposal s.n i (getM s.members i) k host aof, CandW.refl _ _⟩
+            · simp only [getM_setM_ne _ _ _ _ hit]; exact triv
         | commitReq a b k host =>
           simp only []
           by_cases htc : t = c
@@ -194,69 +203,168 @@ theorem step_rel (s : State) (e : Event) (i : Nat) (hr : e ≠ .restart i) :
             by_cases hic : i = c
             · subst hic
               simp only [getM_setM_eq _ _ _ hct.1]
-              exact StepRel.of_acc_cand (accRel_handleCommit s.n (getM s.members i) i k host) (candRel_recordCommit _ _ _ _)
-            · simp only [getM_setM_ne _ _ _ _ hic]; exact StepRel.refl _
+              exact ⟨_, accRel_handleCommit s.n (getM s.members i) i k host, candW_recordCommit _ _ _ _⟩
+            · simp only [getM_setM_ne _ _ _ _ hic]; exact triv
           · simp only [htc, if_false]
             by_cases hit : i = t
             · subst hit
               simp only [getM_setM_eq _ _ _ hct.2]
-              exact StepRel.of_acc (accRel_handleCommit s.n (getM s.members i) c k host)
-            · simp only [getM_setM_ne _ _ _ _ hit]; exact StepRel.refl _
-        | voteRep a b r => exact StepRel.refl _
-        | propRep a b r => exact StepRel.refl _
-        | commitRep a b r => exact StepRel.refl _
-    · exact StepRel.refl _
+              exact ⟨_, accRel_handleCommit s.n (getM s.members i) c k host, CandW.refl _ _⟩
+            · simp only [getM_setM_ne _ _ _ _ hit]; exact triv
+        | voteRep a b r => exact triv
+        | propRep a b r => exact triv
+        | commitRep a b r => exact triv
+    · exact triv
   | deliverRep c t =>
     simp only []
     split
     · rename_i hct
       simp only [State.n] at hct
       split
-      · exact StepRel.refl _
+      · exact triv
       · rename_i msg rest _
         by_cases hic : i = c
         · subst hic
           cases msg with
           | voteRep a b r =>
-            simp only [getM_setM_eq _ _ _ hct.1]; exact StepRel.of_cand (candRel_recordVote _ _ _ _ _ _)
+            simp only [getM_setM_eq _ _ _ hct.1]; exact ⟨_, AccRel.refl _, candW_recordVote _ _ _ _ _ _⟩
           | propRep a b r =>
-            simp only [getM_setM_eq _ _ _ hct.1]; exact StepRel.of_cand (candRel_recordProposal _ _ _ _ _)
+            simp only [getM_setM_eq _ _ _ hct.1]; exact ⟨_, AccRel.refl _, candW_recordProposal _ _ _ _ _⟩
           | commitRep a b r =>
-            simp only [getM_setM_eq _ _ _ hct.1]; exact StepRel.of_cand (candRel_recordCommit _ _ _ _)
-          | voteReq a b => exact StepRel.refl _
-          | propReq a b k host aof => exact StepRel.refl _
-          | commitReq a b k host => exact StepRel.refl _
-        · cases msg <;> simp only [getM_setM_ne _ _ _ _ hic] <;> exact StepRel.refl _
-    · exact StepRel.refl _
+            simp only [getM_setM_eq _ _ _ hct.1]; exact ⟨_, AccRel.refl _, candW_recordCommit _ _ _ _⟩
+          | voteReq a b => exact triv
+          | propReq a b k host aof => exact triv
+          | commitReq a b k host => exact triv
+        · cases msg <;> simp only [getM_setM_ne _ _ _ _ hic] <;> exact triv
+    · exact triv
   | dropReq c t =>
     simp only []
     split
     · rename_i hct
       simp only [State.n] at hct
       split
-      · exact StepRel.refl _
+      · exact triv
       · rename_i msg rest _
         split
         · by_cases hic : i = c
           · subst hic
-            simp only [getM_setM_eq _ _ _ hct.1]; exact StepRel.of_cand (candRel_recordError _ _ _)
-          · simp only [getM_setM_ne _ _ _ _ hic]; exact StepRel.refl _
-        · exact StepRel.refl _
-    · exact StepRel.refl _
+            simp only [getM_setM_eq _ _ _ hct.1]; exact ⟨_, AccRel.refl _, candW_recordError _ _ _⟩
+          · simp only [getM_setM_ne _ _ _ _ hic]; exact triv
+        · exact triv
+    · exact triv
   | dropRep c t =>
     simp only []
     split
     · rename_i hct
       simp only [State.n] at hct
       split
-      · exact StepRel.refl _
+      · exact triv
       · rename_i msg rest _
         split
         · by_cases hic : i = c
           · subst hic
-            simp only [getM_setM_eq _ _ _ hct.1]; exact StepRel.of_cand (candRel_recordError _ _ _)
-          · simp only [getM_setM_ne _ _ _ _ hic]; exact StepRel.refl _
-        · exact StepRel.refl _
-    · exact StepRel.refl _
+            simp only [getM_setM_eq _ _ _ hct.1]; exact ⟨_, AccRel.refl _, candW_recordError _ _ _⟩
+          · simp only [getM_setM_ne _ _ _ _ hic]; exact triv
+        · exact triv
+    · exact triv
+
+/-! ### the invariant of every member that is not restarted -/
+
+/-- `commitId ≤ proposalId`; a latched member has them equal (so it cannot acknowledge a commit, which needs
+`commitId < proposalId`); a member in its proposal or commit round has a voted host; the acknowledged commits are at most
+one per release of the member's own latch, plus one while it is latched -/
+def Good (m : Member) : Prop :=
+  m.cid ≤ m.pid ∧ (m.latch ≠ none → m.pid = m.cid) ∧
+  ((m.phase = .prop ∨ m.phase = .commit) → m.voteHost.isSome = true) ∧
+  m.commits.length ≤ m.clears + (if m.latch.isSome then 1 else 0)
+
+theorem AccRel.good {m m' : Member} (h : AccRel m m') (hg : Good m) :
+    Good m' ∧ m.pid ≤ m'.pid ∧ m.cid ≤ m'.cid ∧ (m'.commits ≠ m.commits → m.latch = none) := by
+  obtain ⟨g1, g2, g3, g4⟩ := hg
+  obtain ⟨hp, hc, hv, h⟩ := h
+  rcases h with ⟨h1, h2, h3, h4⟩ | ⟨h1, h2, h3, h4, h5, h6⟩ | ⟨x, h1, h2, h3, h4, h5⟩
+  · refine ⟨⟨by omega, ?_, by rw [hp, hv]; exact g3, by rw [h4, hc, h3]; exact g4⟩, by omega, by omega, fun hne => absurd h4 hne⟩
+    rw [h3, h1, h2]; exact g2
+  · refine ⟨⟨by omega, fun hl => absurd h5 hl, by rw [hp, hv]; exact g3, ?_⟩, by omega, by omega, fun _ => h1⟩
+    rw [h6, hc, h5]; rw [h1] at g4; exact g4
+  · have hln : m.latch = none := by
+      cases hl : m.latch with
+      | none => rfl
+      | some y =>
+        have := g2 (by rw [hl]; simp)
+        omega
+    refine ⟨⟨by omega, fun _ => by omega, by rw [hp, hv]; exact g3, ?_⟩, by omega, by omega, fun _ => hln⟩
+    rw [h5, hc, h4]
+    rw [hln] at g4
+    simp at g4 ⊢
+    omega
+
+theorem CandW.good {c : Nat} {m m' : Member} (h : CandW c m m') (hg : Good m) :
+    Good m' ∧ m.pid ≤ m'.pid ∧ m.cid ≤ m'.cid := by
+  obtain ⟨g1, g2, g3, g4⟩ := hg
+  obtain ⟨hcm, h⟩ := h
+  rcases h with ⟨h1, h2, h3, h4, h5, h6⟩ | ⟨h1, h2, h3, h4, h5⟩ | ⟨p1, p2, h6, h2, h3, h4, h1⟩ | ⟨p1, p2, hf, h3, h4, h1, h2⟩ | ⟨p1, p2, h3, h2, h1, h4⟩
+  · refine ⟨⟨by omega, by rw [h3, h1, h2]; exact g2, by rw [h5, h6]; exact g3, by rw [hcm, h4, h3]; exact g4⟩, by omega, by omega⟩
+  · refine ⟨⟨by omega, by rw [h3, h1, h2]; exact g2, ?_, by rw [hcm, h4, h3]; exact g4⟩, by omega, by omega⟩
+    intro hph
+    rcases h5 with h5 | h5 | ⟨_, h5⟩
+    · rw [h5] at hph; simp at hph
+    · rw [h5] at hph; simp at hph
+    · exact h5
+  · have hv : m'.voteHost.isSome = true := by rw [h6]; exact g3 (Or.inl p1)
+    rcases h1 with h1 | ⟨hl, h1⟩
+    · exact ⟨⟨by omega, by rw [h3, h1, h2]; exact g2, fun _ => hv, by rw [hcm, h4, h3]; exact g4⟩, by omega, by omega⟩
+    · exact ⟨⟨by omega, fun hl' => by rw [h3] at hl'; exact absurd hl hl', fun _ => hv, by rw [hcm, h4, h3]; exact g4⟩, by omega, by omega⟩
+  · refine ⟨⟨by omega, fun hl => absurd h3 hl, ?_, ?_⟩, by omega, by omega⟩
+    · intro hph; rw [p2] at hph; simp at hph
+    · rw [hcm, h4, h3]
+      cases hl : m.latch with
+      | none => rw [hl] at g4; simpa using g4
+      | some y => rw [hl] at g4; simp at g4 ⊢; omega
+  · have hv : m.voteHost.isSome = true := g3 (Or.inr p1)
+    refine ⟨⟨by omega, fun _ => by omega, ?_, ?_⟩, by omega, by omega⟩
+    · intro hph; rw [p2] at hph; simp at hph
+    · have hb : m.commits.length ≤ m.clears + 1 := by split at g4 <;> omega
+      rw [hcm, h4, h3, hv]
+      simpa using hb
+
+/-- one step, any member that it does not restart -/
+theorem step_good (s : State) (e : Event) (i : Nat) (hr : e ≠ .restart i) (hg : Good (getM s.members i)) :
+    Good (getM (step s e).1.members i) ∧
+    (getM s.members i).pid ≤ (getM (step s e).1.members i).pid ∧
+    (getM s.members i).cid ≤ (getM (step s e).1.members i).cid ∧
+    ((getM (step s e).1.members i).commits ≠ (getM s.members i).commits → (getM s.members i).latch = none) := by
+  obtain ⟨a, h1, h2⟩ := step_decomp s e i hr
+  obtain ⟨ga, p1, c1, l1⟩ := h1.good hg
+  obtain ⟨gm, p2, c2⟩ := h2.good ga
+  refine ⟨gm, by omega, by omega, ?_⟩
+  intro hne
+  apply l1
+  rw [← h2.1]
+  exact hne
+
+/-- along any execution that does not restart member `i` -/
+theorem run_good (es : List Event) : ∀ (s : State) (i : Nat), (∀ e ∈ es, e ≠ .restart i) → Good (getM s.members i) →
+    Good (getM (run s es).members i) ∧
+    (getM s.members i).pid ≤ (getM (run s es).members i).pid ∧
+    (getM s.members i).cid ≤ (getM (run s es).members i).cid := by
+  induction es with
+  | nil => intro s i _ h; exact ⟨h, Nat.le_refl _, Nat.le_refl _⟩
+  | cons e es ih =>
+    intro s i hnr hg
+    obtain ⟨g1, p1, c1, _⟩ := step_good s e i (hnr e (by simp)) hg
+    obtain ⟨g2, p2, c2⟩ := ih (step s e).1 i (fun x hx => hnr x (by simp [hx])) g1
+    simp only [run]
+    exact ⟨g2, by omega, by omega⟩
+
+theorem two_le_length_of_ne {α : Type} {l : List α} {a b : α} (ha : a ∈ l) (hb : b ∈ l) (hne : a ≠ b) : 2 ≤ l.length := by
+  cases l with
+  | nil => simp at ha
+  | cons x l =>
+    cases l with
+    | nil =>
+      simp at ha hb
+      exact absurd (ha.trans hb.symm) hne
+    | cons y l => simp
 
 end Slock.Elect
